@@ -54,6 +54,10 @@ CLAIMS = {
          'TLC checks KeepsYoung, KeepsNewest, FailSafe, Bounded and NeverEmptiesLive for every evolution of the listing, clock schedule, commit notification and failing call within the bounds; every simulated behaviour with a cleaning run is replayed on the real Worker with RunOnce(ctx, now) and the set of blobs after each step must equal the specification state; foreign files (other databases incl. a name-prefix neighbour, unparsable names, other kinds) must never be touched; a receive-only Syncer is observed to perform no Store and no Delete.',
          '2 instances, <=2-3 snapshots each, clock 1..5(6), MustKeep in {0,1,2}, RemoveOld in {1,2,3}; snapshots of an instance appear in timestamp order (property text).',
          'DESIGN.md section 5 C12'),
+ 'C13': ('TLA+ spec Sweeper (ordered DBI, resumable LimitCursor, write-lock slices, application writes between slices); TLC exhaustive + simulation; behaviours replayed on the real Sweeper through a single-pass wrapper, slice yield hook and slice-size override; free-running passes with a concurrent writer',
+         'TLC checks OnlyExpired and ExactlyExpired for every initial content over 4 keys, slice sizes 1 and 2 and every placement of application puts/marks/hard deletes between slices; the same behaviours are forced on the real sweeper (native and shadow mode, in shadow mode a plain application DBI full of marker-looking bytes must stay untouched) with the DBI compared after every step; production-size passes (slice 1000, runs of identical markers) with a concurrent random writer are checked against the same post-condition.',
+         'Markers are classified old/young with a margin (2x / 0.5x the retention, fresh, 5 s in the future); the exact cut-off boundary is covered by the model only.',
+         'DESIGN.md section 5 C13'),
  'C14': ('TLA+ spec Header (layout, Parse/Skip outcomes, what LS writes); rows as raw bytes through header.Parse/Skip/Bytes/PutBasic against an independent reader; well-formedness monitor over every value the real iterator writes for the whole Merge table and every stored value in protocol replays',
          'Every shape row (length, version, flags, extension count incl. 8191/8192/65535, truncation) is concretised and parsed by the real code and by an independent reader written from the schema document; every value written by the real NativeIterator for all rows of the TLC-evaluated Merge table (incl. unknown flag bits, padding option) and every raw value found in native/shadow DBIs after every step of protocol replays is checked: version 0, only synced flags, reserved bytes zero, extension count, transaction id of the writing transaction, empty value when deleted.',
          'Payload bytes, timestamps and transaction ids inside a class are seeded samples.',
@@ -70,6 +74,14 @@ CLAIMS = {
          'Every pair of the pools and every ordered two-pair content is run through the real EncodeOne/DecodeOne/Encode/Decode (verif wrappers) and must be accepted or refused exactly as specified with strictly increasing, decodable keys; sampled contents go through SendOnce, a fresh shadow receiver, re-merge of the own snapshot, a remote deletion and a native receiver (which must refuse).',
          'Pools of 9 key and 14 value shapes built from bytes {0,1,7,255}; empty-value duplicates are subject to the known finding F3.',
          'DESIGN.md section 5 C20'),
+ 'C17': ('TLA+ spec Topic (mutex, rendezvous/buffered channels, Close at any moment) checked by TLC; every call-start sequence of the complete state graph executed on the real Topic with goroutine-status observation; climit schedules, global-storage orders in fresh processes, cancelled real fleets; Go race detector for the data-race clause',
+         'TLC checks CloseNeverWedges and MutexSane (and shows the plain blocking send wedges); all 306 (thorough: 7120 with 3 subscribers) maximal sequences of call starts are run on the real Topic and the settled set of calls in progress, Next results and received counts must match a settled state the specification allows; token counts of the real climit are compared with the model over seeded multi-goroutine release schedules; every order of SetGlobal/GetGlobal runs in a fresh process; real fleets with all background goroutines are cancelled and must leave nothing parked (a downloader parked in Acquire is a known finding).',
+         'Data races are decided by the Go race detector on these drivers, not by TLC; goroutine status is observed after it settled.',
+         'DESIGN.md section 5 C17'),
+ 'C18': ('TLA+ spec LoadAtomic (LoadOnce transaction step by step with failures and a reader; gate table); gate rows as real snapshots through LoadOnce with byte-exact dumps; failure injection (malformed entry, counting-context cancellation, full map) and concurrent reader',
+         'TLC checks ReadersSeeWhole, AbortRestores, SuccessMerges and tabulates the gates over format 0..4 x compat 0..4 x transform x dupsort flag x mode x DBI exists x private; all 1200 rows run on the real LoadOnce (refused => LMDB byte-identical incl. LastTxnID; merged => content incl. version-1 empty value = deletion; private DBIs ignored; unreadable versions refused whatever the snapshot contains); failures are injected in every DBI at every entry, at every cancellation check and at successive map sizes; three reader goroutines compare a generation key across DBIs during 30 merges.',
+         'LMDB MVCC isolation is exercised, not verified; shadow rows run with dupsort_hack enabled.',
+         'DESIGN.md section 5 C18'),
  'C19': ('TLA+ spec Strategy (loop state machines of Update/IterUpdate/EmptyPut checked against a map reference by TLC); every case replayed on a real LMDB with a scripted iterator under 7 key concretisations',
          'TLC checks every terminal state of the three loop machines against the reference over all stored contents x inputs x decisions; the exported cases are executed on a real LMDB through the real strategies with byte-ordered and MDB_INTEGERKEY keys, checking content, order, rejection of unsorted input and that the iterator was handed the stored value.',
          '4 abstract keys, inputs up to length 4 (unsorted up to 2, thorough 3); LMDB cursor semantics assumed as modelled.',
